@@ -721,6 +721,16 @@ def progress_family(rnd, quick):
                 c = h1gen.assemble(reqs, progs, cfg={"upgrade": True}, sock={"budget": budget}, steps=st, epilogue=True, probe=True)
                 c["origin"] = "progress/upgrade-handoff"
                 cases.append(c)
+    # (e) a big body consumed by a task of its own, slower than the socket: the connection task depends on that task's wake-ups
+    for total, seg in ((300000, 65536), (200000, 200000)):
+        for framing in ({"k": "cl", "n": total}, {"k": "chunked", "chunks": [total // 4] * 4}):
+            reqs = [{"m": "POST", "framing": framing}, {"m": "GET"}]
+            progs = [{"pend": 0, "read": "task", "keep": "handler", "resp": {"status": 200, "conn": "-", "body": {"k": "bytes", "chunks": [3]}}}, ok_prog(read="none", n=2)]
+            base = h1gen.assemble(reqs, progs, epilogue=False)
+            steps = [{"seg": seg} for _ in range(base["total"] // seg + 1)] + [{"tick": 10}]
+            c = h1gen.assemble(reqs, progs, cfg={"quiet": False}, steps=steps, epilogue=True, probe=True)
+            c["origin"] = "progress/body-consumed-by-another-task"
+            cases.append(c)
     # (d) 408 against a socket whose first flush blocks
     for budget in (0, 3):
         c = h1gen.assemble([{"m": "GET"}], [ok_prog()], cfg={"head_ms": 1000}, sock={"budget": budget},
